@@ -2,7 +2,10 @@ package c18
 
 import (
 	"context"
+
 	"fmt"
+	"github.com/samsarahq/thunder/batch"
+	"github.com/samsarahq/thunder/graphql"
 	"reflect"
 	"strings"
 
@@ -147,9 +150,94 @@ func runShared(rp *explore.Report, tier string) {
 		}
 	}
 	rp.AddOutcome(fmt.Sprintf("shared-selection-variants=%d", len(variants)))
+	runFallbackArgs(rp, &k)
+}
+
+type fbArgsA struct{ V int64 }
+type fbArgsB struct{ V int64 }
+
+// A batch field whose fallback declares its own (identical) args struct type, with and without a trailing selection
+// set parameter, served by the batch function and by the fallback: the value sent reaches whichever runs.
+func runFallbackArgs(rp *explore.Report, k *int64) {
+	for _, withSel := range []bool{false, true} {
+		for _, useBatch := range []bool{true, false} {
+			for _, transport := range []string{"literal", "variable"} {
+				*k++
+				if !rp.Mine(*k) {
+					continue
+				}
+				rp.Cases++
+				rp.Nontrivial++
+				var seen []int64
+				s := schemabuilder.NewSchema()
+				s.Query().FieldFunc("one", func() *shObj { return &shObj{1} })
+				o := s.Object("shObj", shObj{})
+				use := func(context.Context) bool { return useBatch }
+				if withSel {
+					o.BatchFieldFuncWithFallback("echo",
+						func(ctx context.Context, in map[batch.Index]*shObj, a fbArgsA, sel *graphql.SelectionSet) (map[batch.Index]bool, error) {
+							out := map[batch.Index]bool{}
+							for i := range in {
+								seen = append(seen, a.V)
+								out[i] = true
+							}
+							return out, nil
+						},
+						func(ctx context.Context, o *shObj, a fbArgsB, sel *graphql.SelectionSet) (*bool, error) {
+							seen = append(seen, a.V)
+							t := true
+							return &t, nil
+						}, use)
+				} else {
+					o.BatchFieldFuncWithFallback("echo",
+						func(ctx context.Context, in map[batch.Index]*shObj, a fbArgsA) (map[batch.Index]bool, error) {
+							out := map[batch.Index]bool{}
+							for i := range in {
+								seen = append(seen, a.V)
+								out[i] = true
+							}
+							return out, nil
+						},
+						func(ctx context.Context, o *shObj, a fbArgsB) (*bool, error) {
+							seen = append(seen, a.V)
+							t := true
+							return &t, nil
+						}, use)
+				}
+				s.Mutation().FieldFunc("noop", func() bool { return true })
+				schema, err := s.Build()
+				item := fmt.Sprintf("fallback with its own args type, selection-set parameter=%v, batch in use=%v, %s", withSel, useBatch, transport)
+				fail := func(clause, format string, a ...interface{}) {
+					rp.AddViolation(&explore.Violation{Item: item, Stable: true, Signature: "c18/fallback-args/" + clause,
+						Failures: []explore.Failure{{Clause: clause, Msg: fmt.Sprintf(format, a...)}}})
+				}
+				if err != nil {
+					fail("harness", "the schema does not build: %v", err)
+					continue
+				}
+				text, vars := `{ one { echo(v: 5) } }`, map[string]interface{}(nil)
+				if transport == "variable" {
+					text, vars = `query($x: Int!) { one { echo(v: $x) } }`, map[string]interface{}{"x": 5.0}
+				}
+				var perr interface{}
+				func() {
+					defer func() { perr = recover() }()
+					rt.RunDefault(func() { _, err = gqlfix.Exec(context.Background(), schema, gqlfix.FIFO{}, text, vars) })
+				}()
+				switch {
+				case perr != nil:
+					fail("value-arrives", "execution panicked: %.200v", perr)
+				case err != nil:
+					fail("value-arrives", "a well-formed request failed: %.200v", err)
+				case len(seen) != 1 || seen[0] != 5:
+					fail("value-arrives", "the resolver saw %v, want one call with 5", seen)
+				}
+			}
+		}
+	}
 }
 
 func init() {
 	reg.Register(&reg.Harness{Property: "C18", Name: "c18/shared-selection", Level: "exploration", Run: runShared,
-		Rule: "one field selection inside a named fragment spread under two object types whose field takes {the same args struct, two separately declared identical structs, structs differing in a field's width, required vs optional, paginated fields with different user arguments} x both spread orders x {literal, variable}; oracle: rejected as a client error before any resolver ran, or both resolvers called once with exactly the values sent"})
+		Rule: "one field selection inside a named fragment spread under two object types whose field takes {the same args struct, two separately declared identical structs, structs differing in a field's width, required vs optional, paginated fields with different user arguments} x both spread orders x {literal, variable}; oracle: rejected as a client error before any resolver ran, or both resolvers called once with exactly the values sent; plus a batch field whose fallback declares its own args struct type x with / without a trailing selection-set parameter x batch function / fallback in use x {literal, variable}: the value sent reaches the function that runs"})
 }
